@@ -25,5 +25,10 @@ for p in sys.argv[2:]:
         "evaluations": cov.get("evaluations"), "traces": cov.get("traces_validated_against_impl"),
         "exhaustive": cov.get("exhaustive"), "tlc_runs": len(cov.get("tlc_runs") or []),
     }
-    json.dump(data, open(out, "w"), indent=1, sort_keys=True)
+    import fcntl
+    with open(out + ".lock", "w") as lk:
+        fcntl.flock(lk, fcntl.LOCK_EX)
+        cur = json.load(open(out)) if os.path.exists(out) else {}
+        cur.setdefault(p, {})[tier] = data[p][tier]
+        json.dump(cur, open(out, "w"), indent=1, sort_keys=True)
     print(p, tier, "exit", r.returncode, "wall", wall, "load", load, flush=True)
